@@ -48,7 +48,7 @@ def run_case(case):
     viol = []
     op = case["op"]
 
-    def one(split_mode, split_sizes, entries, triple, tag, slow=0.0):
+    def one(split_mode, split_sizes, entries, triple, tag, slow=0.0, trailer=b""):
         sess = gen.make_session(case["impl"], dims, case["seed"])
         try:
             plan = sess.sim.sync_plan
@@ -57,6 +57,8 @@ def run_case(case):
             plan.split_sizes = split_sizes
             if op == "list":
                 plan.lists[b"/dir"] = entries
+                if trailer:
+                    plan.list_trailer[b"/dir"] = trailer
                 out = sess.call("list", "/dir")
                 stats["lists"] += 1
                 if not out.ok:
@@ -100,7 +102,12 @@ def run_case(case):
             stats["slow_devices"] = 1
         else:
             split_sizes_ = None
-        out = one(split, split_sizes_, entries, triple, "split=%s frag=%s%s" % (split, dims["frag"], " one WRTE every %.1f s" % slow if slow else ""), slow=slow)
+        trailer = b""
+        if op == "list" and rng.random() < 0.15:
+            # the device goes on talking after DONE (another DENT, DONE again, a stray byte): the listing is what came BEFORE the first DONE
+            trailer = rng.choice([wire.sync_dent(1, 2, 3, b"after-done"), wire.sync_list_done(), b"\x00", wire.sync_dent(0, 0, 0, b"x") + wire.sync_list_done(), b"DENT"])
+            stats["listings_with_bytes_after_done"] = 1
+        out = one(split, split_sizes_, entries, triple, "split=%s frag=%s%s%s" % (split, dims["frag"], " one WRTE every %.1f s" % slow if slow else "", " +%d bytes after DONE" % len(trailer) if trailer else ""), slow=slow, trailer=trailer)
         stats["max_entries"] = n
         b = "0" if n == 0 else ("1-3" if n <= 3 else ("<=50" if n <= 50 else ">50"))
         sig = "%s|%s|%s|%s|%s" % (op, case["impl"], b, split, dims["frag"]) if (op == "stat" or n) else None
